@@ -120,7 +120,8 @@ impl NewerOptionType {
 pub struct NewerOptionMatcher {
     x_option: NewerOptionType,
     y_option: NewerOptionType,
-    given_modification_time: SystemTime,
+    /// The reference file's Y timestamp.
+    given_time: SystemTime,
 }
 
 impl NewerOptionMatcher {
@@ -131,22 +132,15 @@ impl NewerOptionMatcher {
         Ok(Self {
             x_option,
             y_option,
-            given_modification_time: metadata.modified()?,
+            given_time: y_option.get_file_time(&metadata)?,
         })
     }
 
     fn matches_impl(&self, file_info: &WalkEntry) -> Result<bool, Box<dyn Error>> {
+        // true iff the entry's X timestamp is strictly later than the reference's Y timestamp
         let x_option_time = self.x_option.get_file_time(file_info.metadata()?)?;
-        let y_option_time = self.y_option.get_file_time(file_info.metadata()?)?;
 
-        Ok(self
-            .given_modification_time
-            .duration_since(x_option_time)
-            .is_err()
-            && self
-                .given_modification_time
-                .duration_since(y_option_time)
-                .is_err())
+        Ok(self.given_time.duration_since(x_option_time).is_err())
     }
 }
 
